@@ -63,6 +63,8 @@ def run_world(
         graph, comp = build(spec, rt, "sync" if mode == "sync" else "async", bind)
         if prepare is not None:
             prepare(rt, graph, comp)
+        if callable(values):
+            values = values(graph)
         if processors_factory is not None:
             kw["event_processors"] = processors_factory(rt)
         if mode == "sync":
@@ -82,7 +84,7 @@ def run_world(
                 limits=[mc],
                 step_cap=step_cap,
             )[0]
-    return {"out": out, "rt": rt, "graph": graph, "comp": comp}
+    return {"out": out, "rt": rt, "graph": graph, "comp": comp, "values": values}
 
 
 def invocations(rt: Runtime, *, kinds: tuple = ("fn", "gate", "interrupt")) -> list[tuple[str, str]]:
@@ -122,3 +124,22 @@ def fault_counts(rt: Runtime, stats: dict) -> None:
             stats["probe_" + k] = stats.get("probe_" + k, 0) + v
     if rt.decision_log:
         stats["fault_hold_open_releases"] = stats.get("fault_hold_open_releases", 0) + len(rt.decision_log)
+
+
+def fill_values(inputs: dict, keep: list[str] | tuple = ()) :
+    """values(graph): provided minus omitted, but never omitting what the graph requires."""
+
+    def f(graph: Any) -> dict:
+        prov = inputs["provide"]
+        omit = set(inputs.get("omit", []))
+        vals = {k: v for k, v in prov.items() if k not in omit or k in keep or isinstance(v, list)}
+        try:
+            req = list(graph.inputs.required)
+        except Exception:  # noqa: BLE001
+            req = []
+        for r in req:
+            if r not in vals:
+                vals[r] = prov[r] if r in prov else 11
+        return vals
+
+    return f
